@@ -15,7 +15,7 @@ variable (le : β → β → Bool)
 include htrans htot
 
 /-- on a sorted list, `searchsorted(side='left')` is the partition point of `x < v` -/
-theorem searchLeft_partition' (s : List β) (hs : s.Pairwise (fun a b => le a b = true)) (v : β)
+theorem searchLeft_partition (s : List β) (hs : s.Pairwise (fun a b => le a b = true)) (v : β)
     (i : Nat) (hi : i < s.length) :
     i < searchLeft (fun a b => !(le b a)) s v ↔ le v s[i] = false := by
   unfold searchLeft
@@ -40,7 +40,7 @@ theorem searchLeft_partition' (s : List β) (hs : s.Pairwise (fun a b => le a b 
       simp [h] at this
 
 /-- on a sorted list, `searchsorted(side='right')` is the partition point of `x ≤ v` -/
-theorem searchRight_partition' (s : List β) (hs : s.Pairwise (fun a b => le a b = true)) (v : β)
+theorem searchRight_partition (s : List β) (hs : s.Pairwise (fun a b => le a b = true)) (v : β)
     (i : Nat) (hi : i < s.length) :
     i < searchRight (fun a b => !(le b a)) s v ↔ le s[i] v = true := by
   unfold searchRight
